@@ -70,6 +70,119 @@ pub fn gen_filter_json(rng: &mut Rng) -> String {
     serde_json::Value::Object(f).to_string()
 }
 
+/// the export plugin: `filters` as configured plus, optionally, `lifecyclesToKeep`; the exported file must hold
+/// exactly the messages the stated rule keeps (and whose lifecycle is one of those to keep), in order
+fn run_export_leg(c: &Case, msgs: &[DltMessage], kept_set: &[bool], ctx: &mut Ctx) -> Result<(), Violation> {
+    use adlt::plugins::plugin::Plugin;
+    let base = std::env::var("VERIF_TMP").unwrap_or_else(|_| "/verif/sim/target/tmp".to_string());
+    let root = std::path::PathBuf::from(base).join(format!("c12-{}", std::process::id()));
+    let _ = std::fs::create_dir_all(&root);
+    let path = root.join("export.dlt");
+    let _ = std::fs::remove_file(&path);
+    let with_lcs = (c.sched.seed / 3) % 2 == 0;
+    let pick = c.sched.seed / 6;
+    let res = sh::slot((Vec::<DltMessage>::new(), Vec::<crate::lc::LcInfo>::new(), Vec::<u32>::new(), String::new()));
+    let res2 = res.clone();
+    let input = std::sync::Arc::new(msgs.to_vec());
+    let fjson = c.filters.clone();
+    let path_s = path.to_string_lossy().to_string();
+    crate::lc::align_lc_ids();
+    sh::run(&SchedCfg::simple(), ctx, move || {
+        let (lcs_r, lcs_w) = evmap::Options::default().with_hasher(crate::lc::NoHash::default()).construct::<adlt::lifecycle::LifecycleId, adlt::lifecycle::Lifecycle>();
+        let (tx, rx) = sstd::sync::mpsc::channel();
+        for m in input.iter() {
+            tx.send(m.clone()).unwrap();
+        }
+        drop(tx);
+        let staged = std::cell::RefCell::new(vec![]);
+        let lcs_w = adlt::lifecycle::parse_lifecycles_buffered_from_stream(lcs_w, rx, &|m| {
+            staged.borrow_mut().push(m);
+            Ok(())
+        });
+        let staged = staged.into_inner();
+        let table = crate::pipes::snapshot_table(&lcs_r);
+        // lifecycles to keep: a seed-chosen subset of the plain (non resume) lifecycles, described as a client would
+        let mut keep_ids = vec![];
+        let mut lcis = vec![];
+        if with_lcs {
+            for (i, l) in table.iter().enumerate() {
+                if !l.is_resume && (pick >> (i % 40)) & 1 == 1 {
+                    keep_ids.push(l.id);
+                    let ecu = String::from_utf8_lossy(&l.ecu).trim_end_matches('\0').to_string();
+                    lcis.push(serde_json::json!({"ecu": ecu, "startTime": l.start, "endTime": l.end}));
+                }
+            }
+        }
+        let mut cfg = serde_json::json!({"name":"Export","enabled":true,"exportFileName":path_s});
+        cfg["filters"] = serde_json::Value::Array(fjson.iter().map(|j| serde_json::from_str::<serde_json::Value>(j).unwrap()).collect());
+        if !lcis.is_empty() {
+            cfg["lifecyclesToKeep"] = serde_json::Value::Array(lcis);
+        }
+        let mut err = String::new();
+        match adlt::plugins::export::ExportPlugin::from_json(cfg.as_object().unwrap()) {
+            Ok(mut p) => {
+                p.set_lifecycle_read_handle(&lcs_r);
+                for m in staged.iter() {
+                    let mut mm = m.clone();
+                    if !p.process_msg(&mut mm) {
+                        err = format!("the export plugin removed message {} from the stream", m.index);
+                    }
+                }
+                drop(p);
+            }
+            Err(e) => err = format!("config rejected: {}", e),
+        }
+        *res2.lock().unwrap() = (staged, table, keep_ids, err);
+        drop(lcs_w);
+    })?;
+    let (staged, table, keep_ids, err) = res.lock().unwrap().clone();
+    if !err.is_empty() {
+        viol!("export-plugin-error", "{}", err);
+    }
+    // mirror of the lifecycle selection: a described lifecycle is matched by the first lifecycle of that ECU that lies
+    // inside [start, end]; each description is used once
+    let mut remaining: Vec<(LcKey, u64, u64)> = table.iter().filter(|l| keep_ids.contains(&l.id)).map(|l| (l.ecu, l.start, l.end)).collect();
+    let mut exported_lcs: Vec<u32> = vec![];
+    let mut checked: std::collections::BTreeSet<u32> = Default::default();
+    let lc_mode = !keep_ids.is_empty();
+    let mut expected: Vec<&DltMessage> = vec![];
+    if staged.len() != msgs.len() {
+        viol!("export-leg-stage-count", "lifecycle stage delivered {} of {} messages", staged.len(), msgs.len());
+    }
+    for (i, m) in staged.iter().enumerate() {
+        if lc_mode && !remaining.is_empty() && checked.insert(m.lifecycle) {
+            if let Some(l) = table.iter().find(|l| l.id == m.lifecycle) {
+                if let Some(p) = remaining.iter().position(|(ecu, st, en)| ecu == m.ecu.as_buf() && !l.is_resume && l.start >= *st && l.end <= *en) {
+                    exported_lcs.push(m.lifecycle);
+                    remaining.remove(p);
+                }
+            }
+        }
+        if kept_set[i] && (!lc_mode || exported_lcs.contains(&m.lifecycle)) {
+            expected.push(m);
+        }
+    }
+    let bytes = std::fs::read(&path).unwrap_or_default();
+    let got: Vec<DltMessage> = adlt::utils::DltMessageIterator::new(0, &bytes[..]).collect();
+    let _ = std::fs::remove_file(&path);
+    // the file starts with one info message (when anything was exported at all)
+    let got = if got.is_empty() { &got[..] } else { &got[1..] };
+    if got.len() != expected.len() {
+        viol!("export-selection-count", "the export file holds {} messages, the rule (filters {:?}, lifecycles to keep {:?}) selects {} of {}", got.len(), c.filters, keep_ids.len(), expected.len(), staged.len());
+    }
+    for (k, (a, b)) in got.iter().zip(expected.iter()).enumerate() {
+        if a.reception_time_us != b.reception_time_us || a.timestamp_dms != b.timestamp_dms || a.payload != b.payload || a.ecu != b.ecu {
+            viol!("export-selection", "export file position {}: not the expected message (index {} expected)", k, b.index);
+        }
+    }
+    ctx.probe("export_plugin_files_compared");
+    if lc_mode {
+        ctx.probe("export_with_lifecycles_to_keep");
+    }
+    Ok(())
+}
+type LcKey = [u8; 4];
+
 pub struct C12;
 impl Check for C12 {
     type Case = Case;
@@ -279,6 +392,10 @@ impl Check for C12 {
                 }
             }
         }
+        // (d) the export plugin applies the same set (plus an optional lifecycle selection) while writing a file
+        if c.sched.seed % 3 == 0 {
+            run_export_leg(c, &msgs, &kept_set, ctx)?;
+        }
         ctx.nontrivial = !filters.is_empty() && msgs.len() > 1 && kept_stream.iter().any(|k| *k) && kept_stream.iter().any(|k| !*k);
         Ok(())
     }
@@ -304,7 +421,7 @@ impl Check for C12 {
         out
     }
     fn rule() -> &'static str {
-        "one run = a filter set of 0-6 generated filters (positive/negative/marker/event, enabled or not, negated or not, overlapping ECU/APID/CTID literal+regex, level bounds, payload text/regex with case flag, message type) x a simulated message stream (<= 200 messages); the real stream filter stage runs as a shuttle thread between bounded channels (capacity and pacing knobs, consumer drop) and the real set matcher runs on the set StreamContext::from builds, and the server's incremental stream index (process_stream_new_msgs, chunk sizes 1..3M, one or two hand-overs) is built over the same messages; both are compared with the stated combination rule applied to the real per-filter verdicts; non-trivial = the set keeps some and drops some messages; distinct = hash of (filters, #messages, schedule seed)"
+        "one run = a filter set of 0-6 generated filters (positive/negative/marker/event, enabled or not, negated or not, overlapping ECU/APID/CTID literal+regex, level bounds, payload text/regex with case flag, message type) x a simulated message stream (<= 200 messages); the real stream filter stage runs as a shuttle thread between bounded channels (capacity and pacing knobs, consumer drop) and the real set matcher runs on the set StreamContext::from builds, and the server's incremental stream index (process_stream_new_msgs, chunk sizes 1..3M, one or two hand-overs) is built over the same messages; in a third of the runs the export plugin is configured with the same set (half of these with a seed-chosen subset of the detected lifecycles as lifecyclesToKeep) and its export file is compared; both are compared with the stated combination rule applied to the real per-filter verdicts; non-trivial = the set keeps some and drops some messages; distinct = hash of (filters, #messages, schedule seed)"
     }
     fn assumptions() -> Vec<&'static str> {
         vec!["per-filter verdicts come from the real Filter::matches (its semantics belong to C11, which is not applicable to this technique); only the combination rule, order preservation and the counters are decided here"]
@@ -316,6 +433,6 @@ impl Check for C12 {
         vec!["producer/consumer threads", "scheduler and channels (shuttle + seam)", "message generator"]
     }
     fn required_reach() -> Vec<&'static str> {
-        vec!["set_has_positive", "set_has_negative", "set_has_event", "set_has_marker", "set_has_disabled", "consumer_disappears", "try_send_full", "stream_index_compared"]
+        vec!["set_has_positive", "set_has_negative", "set_has_event", "set_has_marker", "set_has_disabled", "consumer_disappears", "try_send_full", "stream_index_compared", "export_plugin_files_compared", "export_with_lifecycles_to_keep"]
     }
 }
